@@ -692,7 +692,7 @@ def registry_owners(ctx, rule):
     P = ctx.P
     ctx.rule(rule, 'a process leaves the registry, and its exit notices go out, from exactly one place: the end of its own task; a name is given up only through the unregister operation. '
              'No sending or routing function does either on the strength of a failed delivery (by the time its await returns the name may belong to someone else, '
-             'and the process\'s own task has sent - or will send - the notices itself)', floor=2)
+             'and the process\'s own task has sent - or will send - the notices itself)', floor=1)
     # confirmed by reading: the only callers on the pinned tree
     OWNERS = {
         'edp_node::registry::ProcessRegistry::remove': ('edp_node::process::',),
